@@ -75,31 +75,45 @@ Proof. exact parse_negotiation_total. Qed.
 Print Assumptions C18_parse_negotiation_total.
 
 (* ---- parameterised values -------------------------------------------- *)
-(* Full statement (false of the code, see the refutation below):
-     forall v ps, main_ok v -> keys ok and distinct -> values non-empty ->
-       parse_header (add_header value v, kwargs ps) = (v, ps).
-   Proved for all values (any spaces, semicolons, double quotes,
-   backslashes, '=', ',', any code points) under the one extra hypothesis that no value *followed
-   by another parameter* ends in a backslash. *)
-Theorem C18_param_roundtrip_partial :
-  forall v ps,
-    main_ok v -> Forall (fun kv => key_ok (fst kv)) ps -> NoDup (map fst ps) ->
-    Forall (fun kv => snd kv <> []) ps -> no_bs_before_next ps ->
-    bind (add_header_value (Some v) (map param_value ps)) parse_header
-    = Ok (v, ps).
-Proof. exact param_roundtrip. Qed.
-Print Assumptions C18_param_roundtrip_partial.
-
-(* in particular for values without any backslash *)
-Theorem C18_param_roundtrip_nobackslash :
+(* parse_header (the value add_header(name, v, **ps) stores) = (v, ps), for
+   EVERY parameter value the writer renders: any non-empty list of code
+   points -- blanks, semicolons, double quotes, backslashes anywhere (also
+   at the end, also in front of a further parameter), '=', ',', CR, LF,
+   controls, any code point.  (Since the repair of _parseparam, which used
+   to count quotes instead of scanning; known finding
+   param-backslash-before-next-param until then.)
+   What remains are the limits of the writer itself, which quotes and
+   escapes parameter VALUES only:
+   - main value v ([main_ok]): written as it is, so no ';' and no double
+     quote, no blank at either end (parse_header strips it);
+   - keys ([key_ok]): written as they are (after '_' -> '-'), so no '=', ';',
+     double quote, '_', no blank at either end, and lower case (parse_header
+     lower-cases them); distinct (kwargs of a call are);
+   - an EMPTY value is written as the bare key (wsgiref _formatparam) and
+     therefore reads back as no entry: see C18_param_roundtrip_all.
+   Outside the model: Headers.iso88591 (str -> UTF-8 bytes read as Latin-1,
+   applied to v, keys and values before this writer; it raises ValueError
+   for lone surrogates, which UTF-8 cannot encode) and its inverse
+   Headers.utf8 on the reading side -- the lists here are the code points
+   after that conversion, and the theorem holds for all of them. *)
+Theorem C18_param_roundtrip :
   forall v ps,
     main_ok v -> Forall (fun kv => key_ok (fst kv)) ps -> NoDup (map fst ps) ->
     Forall (fun kv => snd kv <> []) ps ->
-    Forall (fun kv => ~ In 92 (snd kv)) ps ->
     bind (add_header_value (Some v) (map param_value ps)) parse_header
     = Ok (v, ps).
-Proof. exact param_roundtrip_nobackslash. Qed.
-Print Assumptions C18_param_roundtrip_nobackslash.
+Proof. exact param_roundtrip. Qed.
+Print Assumptions C18_param_roundtrip.
+
+(* ... and with no hypothesis on the values at all: the pairs with an empty
+   value are the ones that do not come back *)
+Theorem C18_param_roundtrip_all :
+  forall v ps,
+    main_ok v -> Forall (fun kv => key_ok (fst kv)) ps -> NoDup (map fst ps) ->
+    bind (add_header_value (Some v) (map param_value ps)) parse_header
+    = Ok (v, filter (fun kv => negb (is_nil (snd kv))) ps).
+Proof. exact param_roundtrip_gen. Qed.
+Print Assumptions C18_param_roundtrip_all.
 
 (* the escaping itself is inverted exactly, for every value *)
 Theorem C18_unescape_escape :
@@ -107,19 +121,17 @@ Theorem C18_unescape_escape :
 Proof. exact unescape_escape. Qed.
 Print Assumptions C18_unescape_escape.
 
-(* known finding param-backslash-before-next-param: add_header(
-   'form-data', a='x\', filename='b') reads back as one parameter a whose
-   value is x, a double quote, '; filename=', a double quote, b *)
-Theorem C18_param_roundtrip_refuted :
-  exists v ps,
-    main_ok v /\ Forall (fun kv => key_ok (fst kv)) ps /\ NoDup (map fst ps) /\
-    Forall (fun kv => snd kv <> []) ps /\
-    bind (add_header_value (Some v) (map param_value ps)) parse_header
-      = Ok (v, [(s2l "a", s2l "x""; filename=""b")]) /\
-    bind (add_header_value (Some v) (map param_value ps)) parse_header
-      <> Ok (v, ps).
-Proof. exact param_roundtrip_refuted. Qed.
-Print Assumptions C18_param_roundtrip_refuted.
+(* the witness of the former finding: add_header('form-data', a='x\',
+   filename='b') reads back as written (before the repair: as the single
+   parameter a whose value was x, a double quote, '; filename=', a double
+   quote, b) *)
+Theorem C18_param_roundtrip_backslash_witness :
+  bind (add_header_value (Some (s2l "form-data"))
+          (map param_value [(s2l "a", [120; 92]); (s2l "filename", s2l "b")]))
+       parse_header
+  = Ok (s2l "form-data", [(s2l "a", [120; 92]); (s2l "filename", s2l "b")]).
+Proof. exact param_roundtrip_backslash. Qed.
+Print Assumptions C18_param_roundtrip_backslash_witness.
 
 (* parse_header returns a value for every string (the generator always
    yields the first part, so next() cannot raise StopIteration) *)
